@@ -28,11 +28,12 @@ claim("C04", "E1-jobsim",
 claim("C06", "E1-jobsim",
  "Seeded search over graceful stop/restart/try-restart scenarios (all grace values incl. 0, unique signal per control for attribution, child reactions colliding with the grace deadline, controls of every priority queued behind) x schedules; history oracles: requested signal mapped to its OS number and sent at once, no kill inside the grace period, kill+reap exactly at expiry if still alive, normal-priority controls held back until the process ended, exact spawn count per control in settled scenarios.",
  NOTE_E1, "DESIGN.md 4 C06")
-claim("C07", "E1-jobsim",
- "Seeded search as for C04 with 1-4 waiter tasks per ticket (clones and distinct tickets), injected spawn/kill/signal/wait failures and job termination by delete, delete_now or dropping the last handle; oracles: no waiter is left to the 1 h virtual watchdog (a hang has an exact meaning under a discrete-event clock), all waiters of a ticket resume at the same instant, a ticket resolves no later than its control's completion (graceful stop: min(process exit, signal + grace)), everything outstanding resolves when the job ends, error handler called once per injected failure.",
- NOTE_E1, "DESIGN.md 4 C07")
+claim("C07", "E1-jobsim + E4-flagsim",
+ "Two engines. (1) Seeded search as for C04 with 1-4 waiter tasks per ticket (clones and distinct tickets), injected spawn/kill/signal/wait failures and job termination by delete, delete_now or dropping the last handle; oracles: no waiter is left to the 1 h virtual watchdog (a hang has an exact meaning under a discrete-event clock), all waiters of a ticket resume at the same instant, a ticket resolves no later than its control's completion (graceful stop: min(process exit, signal + grace)), everything outstanding resolves when the job ends, error handler called once per injected failure. (2) The Flag under every Ticket (crates/supervisor/src/flag.rs, taken from /repo's working tree at build time with std::sync replaced by shuttle::sync) run by real threads under shuttle's seeded random and PCT schedulers, pre-empted at every mutex / atomic operation: waiters, cancelled polls, late clones, futures migrating between threads and 1-2 raisers; a lost wake-up is a deadlock, which the scheduler reports with a replayable schedule.",
+ NOTE_E1 + " The thread engine trusts shuttle's sequentially consistent model of atomics (the Relaxed orderings in flag.rs are ordered by the Mutex around the waker list, which is modelled).", "DESIGN.md 4 C07, 10.3",
+ technique="deterministic simulation with fault injection (tokio-level engine as for C04) plus controlled-scheduler thread simulation of the Flag primitive (shuttle: seeded random + PCT schedules, persisted failing schedule replays exactly)")
 claim("C09", "E1-jobsim + reference model",
- "Refinement against an executable reference model written from the rustdoc: every control sequence up to a bound (quick: length <= 3, thorough: length <= 4) x {burst, settled} x 6 child classes x 3 spawn-failure plans, then random sequences up to 30 controls; the real job task's child operations (with virtual instants), probe observations (current/previous state), spawn-hook and error-handler calls, ticket resolution instants and task end are compared observation by observation with the model on every tie-free scenario. Schedules are sampled.",
+ "Refinement against an executable reference model written from the rustdoc: every control sequence up to a bound (quick: length <= 3, thorough: length <= 4) x {burst, settled} x 6 child classes x 6 fault plans (spawn, kill, signal, wait failures), then random sequences up to 30 controls; the real job task's child operations (with virtual instants), probe observations (current/previous state), spawn-hook and error-handler calls, ticket resolution instants and task end are compared observation by observation with the model on every tie-free scenario. Schedules are sampled.",
  NOTE_E1 + " The reference model itself (sim/src/model.rs, DESIGN.md appendix A) is trusted as the reading of the documentation.", "DESIGN.md 4 C09 + appendix A",
  technique="deterministic simulation compared step by step with an executable reference model of the documented API (refinement over recorded histories); bounded-exhaustive + seeded-random tie-free scenarios, seeded schedules")
 claim("C10", "E1-jobsim",
@@ -93,7 +94,8 @@ def gen(active, pending):
      "engines": [
        {"name":"E1-jobsim","path":"/verif/sim/src/e1.rs","serves_properties":["C04","C06","C07","C09","C10"],"kind_free_text":"real watchexec-supervisor job task on a simulator-owned tokio current-thread scheduler with virtual time; SimChild behind the production child trait (hook H2)"},
        {"name":"E2-wxsim","path":"/verif/sim/src/e2.rs","serves_properties":["C01","C02","C08","C13","C15"],"kind_free_text":"full Watchexec runtime (action worker, fs/signal/keyboard sources, error hook, Config) with SimFilterer, SimWatcher (hook H3), H4 signal/keyboard injections, simulated producers and handlers"},
-       {"name":"E3-clisim","path":"/verif/sim/src/e3.rs","serves_properties":["C05","C08"],"kind_free_text":"E2 driven by the real CLI argument parser and action handler (hook H5)"},
+       {"name":"E4-flagsim","path":"/verif/flagsim/src/main.rs","serves_properties":["C07"],"kind_free_text":"crates/supervisor/src/flag.rs (source swapped onto shuttle::sync by a build script, otherwise unchanged) run by real threads under shuttle's seeded schedulers"},
+       {"name":"E3-clisim","path":"/verif/sim/src/e3.rs","serves_properties":["C05","C08"],"kind_free_text":"E2 driven by the real CLI: argument parser (H5) and run_watchexec() as the main future (H8: make_config, CLI filterer, runtime creation, start-up event, main loop)"},
      ],
      "checks": checks,
      "not_applicable": na,
